@@ -2,6 +2,8 @@ package props
 
 import (
 	"fmt"
+	"go/constant"
+	"go/token"
 	"go/ast"
 	"go/types"
 	"sort"
@@ -345,6 +347,11 @@ func runC10(c *eng.Ctx) {
 
 	c.Rule("GOC", "index.indexKVStore.createValue", func() { gocCreateValue(c) })
 
+	c.Rule("LAYOUT", "index/v1.tagForwardReader{run of container i starts after the runs of all containers before it}", func() { forwardLookupTable(c) })
+
+	c.Rule("SYMMETRY", "index{regex lookup: persisted candidates = all keys unless the expression is anchored}", func() { regexCandidates(c) })
+	c.Rule("GUARD", "index.indexKVStore.FindValuesByLike{no pattern slices out of range}", func() { likePatternSlices(c) })
+
 	c.Rule("ORDER", "index{memory read < snapshot}", func() {
 		memoryBeforeSnapshot(c, []orderedReader{
 			{"index.invertedIndex.getSeriesIDs", "index.invertedIndex", invokeOn(".family", "GetSnapshot"), true},
@@ -509,4 +516,238 @@ func assertedKinds(fn *ssa.Function, paramIdx int) []string {
 	}
 	sort.Strings(out)
 	return out
+}
+
+// forwardLookupTable: the forward-index flusher writes, after the series-id bitmap, the tag value ids of container 0,
+// then of container 1, ... back to back (WriteTagValueIDs once per container, in order).  The reader addresses the run
+// of container i as buf[lut[i]*4 : ...]: lut[i] must therefore be the number of series in ALL containers before i —
+// a running sum of cardinalities.  Decided structurally: every non-constant store into the table built by
+// NewTagForwardReader adds the container's cardinality to an accumulated value (the previous table entry, or a
+// loop-carried sum).
+func forwardLookupTable(c *eng.Ctx) {
+	p := c.P
+	// writer: one contiguous run per container
+	fl := c.Fn("index.forwardIndex.flush")
+	body := fl
+	for _, cl := range eng.Closures(fl) {
+		if len(p.Sites(cl, invokeOn("", "WriteTagValueIDs"))) > 0 {
+			body = cl
+		}
+	}
+	c.One(body, invokeOn("", "WriteTagValueIDs"), "flusher.WriteTagValueIDs(run of one container)")
+	rd := c.Fn("index/v1.tagForwardReader.GetSeriesAndTagValue")
+	usesLut := len(p.Sites(rd, eng.LoadField("index/v1.tagForwardReader.lut"))) > 0
+	c.Check(usesLut, "reader-addresses-by-table", nil, rd, "the reader takes the start of a container's run from the lookup table", "")
+	f := c.Fn("index/v1.NewTagForwardReader")
+	var lut *ssa.MakeSlice
+	for _, b := range eng.BlocksT(f) {
+		for _, in := range b.Instrs {
+			if ms, ok := in.(*ssa.MakeSlice); ok && strings.Contains(ms.Type().String(), "int") {
+				lut = ms
+			}
+		}
+	}
+	if lut == nil {
+		c.Undecided("the lookup table is not built with make([]int, …) in NewTagForwardReader")
+	}
+	isElemLoad := func(x ssa.Value) bool {
+		u, ok := x.(*ssa.UnOp)
+		if !ok || u.Op != token.MUL {
+			return false
+		}
+		ia, ok := u.X.(*ssa.IndexAddr)
+		return ok && eng.Unwrap(ia.X) == ssa.Value(lut)
+	}
+	var loopCarried func(x ssa.Value) bool
+	loopCarried = func(x ssa.Value) bool {
+		ph, ok := x.(*ssa.Phi)
+		if !ok || ph.Comment == "rangeindex" {
+			return false
+		}
+		for _, e := range ph.Edges {
+			if e != ssa.Value(ph) && eng.DependsOn(e, func(y ssa.Value) bool { return y == ssa.Value(ph) }) {
+				return true
+			}
+		}
+		return false
+	}
+	n := 0
+	for _, b := range eng.BlocksT(f) {
+		for _, in := range b.Instrs {
+			st, ok := in.(*ssa.Store)
+			if !ok {
+				continue
+			}
+			ia, ok := st.Addr.(*ssa.IndexAddr)
+			if !ok || eng.Unwrap(ia.X) != ssa.Value(lut) {
+				continue
+			}
+			if _, isC := st.Val.(*ssa.Const); isC {
+				continue
+			}
+			n++
+			card := eng.DependsOn(st.Val, func(y ssa.Value) bool {
+				cl, ok := y.(*ssa.Call)
+				return ok && cl.Common().IsInvoke() && cl.Common().Method.Name() == "GetCardinality"
+			})
+			acc := eng.DependsOn(st.Val, func(y ssa.Value) bool { return isElemLoad(y) || loopCarried(y) })
+			c.Check(card && acc, fmt.Sprintf("table-entry-is-a-running-sum[%d]", n), st, f,
+				"lut[i+1] = (series in containers 0..i): the cardinality of container i is ADDED to what was accumulated before (previous entry or a running sum); the bare cardinality is the right offset only for the second container",
+				"stores "+p.Desc(st.Val))
+		}
+	}
+	c.Check(n > 0, "table-filled", nil, f, "the lookup table is filled per container", "")
+}
+
+// regexCandidates: the in-memory dictionary lookup applies rp.Match — an unanchored search — to EVERY key of the bucket.
+// The persisted lookup must select the same keys.  It may narrow the keys it visits by a key prefix only when every
+// matching key provably starts with it; regexp.LiteralPrefix is a prefix of every MATCH, which is a prefix of the
+// KEY only for an expression anchored at the beginning.  Necessary condition decided here: the prefix handed to the
+// trie iterator does not derive from LiteralPrefix(), unless under a test of the expression's anchoring
+// (its source text via rp.String(), or a regexp/syntax inspection).
+func regexCandidates(c *eng.Ctx) {
+	p := c.P
+	mem := c.Fn("index.indexKVStore.findValuesByRegexp")
+	c.Check(len(p.Sites(mem, eng.AnyCallTo("regexp.Regexp.Match", "regexp.Regexp.MatchString"))) > 0 && len(eng.EarlyLoopExits(mem)) == 0, "memory-tests-every-key", nil, mem,
+		"the in-memory lookup tests every key of the bucket with rp.Match", "")
+	f := c.Fn("index/model.TrieBucket.FindValuesByRegexp")
+	its := c.Some(f, eng.AnyCallTo("github.com/lindb/lindb/pkg/trie.SuccinctTrie.NewPrefixIterator", "pkg/trie.SuccinctTrie.NewPrefixIterator", "pkg/trie.trie.NewPrefixIterator"), "tree.NewPrefixIterator(prefix)")
+	c.Check(len(p.Sites(f, eng.AnyCallTo("regexp.Regexp.Match", "regexp.Regexp.MatchString"))) > 0, "persisted-tests-with-match", nil, f, "the persisted lookup tests candidate keys with rp.Match", "")
+	isLit := func(x ssa.Value) bool {
+		cl, ok := x.(*ssa.Call)
+		return ok && cl.Common().StaticCallee() != nil && cl.Common().StaticCallee().Name() == "LiteralPrefix"
+	}
+	isAnchorTest := func(x ssa.Value) bool {
+		cl, ok := x.(*ssa.Call)
+		if !ok || cl.Common().StaticCallee() == nil {
+			return false
+		}
+		g := cl.Common().StaticCallee()
+		return g.Name() == "String" && strings.Contains(g.String(), "regexp.Regexp") || g.Pkg != nil && g.Pkg.Pkg.Path() == "regexp/syntax"
+	}
+	for i, it := range its {
+		a := eng.CallArgs(it.Instr.(*ssa.Call))
+		if len(a) == 0 {
+			continue
+		}
+		// every way the prefix can derive from LiteralPrefix must lie under an anchoring test
+		bad := ""
+		var visit func(v ssa.Value, seen map[ssa.Value]bool)
+		visit = func(v ssa.Value, seen map[ssa.Value]bool) {
+			if seen[v] {
+				return
+			}
+			seen[v] = true
+			if ph, ok := v.(*ssa.Phi); ok {
+				for k, e := range ph.Edges {
+					if !eng.DependsOn(e, isLit) {
+						continue
+					}
+					pred := ph.Block().Preds[k]
+					conds, _ := eng.GuardingConds(f, pred.Instrs[len(pred.Instrs)-1])
+					ok := false
+					for _, cd := range conds {
+						if eng.DependsOn(cd, isAnchorTest) {
+							ok = true
+						}
+					}
+					if !ok {
+						visit(e, seen)
+					}
+				}
+				return
+			}
+			if eng.DependsOn(v, isLit) {
+				conds, _ := eng.GuardingConds(f, it.Instr)
+				for _, cd := range conds {
+					if eng.DependsOn(cd, isAnchorTest) {
+						return
+					}
+				}
+				bad = p.Desc(v)
+			}
+		}
+		visit(eng.Unwrap(a[0]), map[ssa.Value]bool{})
+		c.Check(bad == "", fmt.Sprintf("prefix-narrowing-only-when-anchored[%d]", i), it.Instr, f,
+			"the keys visited in a persisted bucket are narrowed to those starting with rp.LiteralPrefix() only when the expression is anchored at the beginning; for an unanchored expression every key is a candidate, as in the in-memory lookup",
+			"the iterator prefix "+bad+" derives from LiteralPrefix() without an anchoring test")
+	}
+}
+
+// likePatternSlices: FindValuesByLike cuts the '*' off the pattern by slicing; each slice pattern[L : len-H] needs
+// len >= L+H.  What is known at the slice must imply it: a leading / trailing '*' was seen (len >= 1), and for L+H = 2
+// either a length test or the exclusion of the one-character pattern "*" (the only pattern with both a leading and a
+// trailing '*' that is shorter than 2).
+func likePatternSlices(c *eng.Ctx) {
+	p := c.P
+	f := c.Fn("index.indexKVStore.FindValuesByLike")
+	facts := p.MustFacts(f)
+	like := ssa.Value(f.Params[2])
+	n := 0
+	for _, b := range eng.BlocksT(f) {
+		for _, in := range b.Instrs {
+			sl, ok := in.(*ssa.Slice)
+			if !ok || !eng.DependsOn(sl.X, func(x ssa.Value) bool { return x == like }) {
+				continue
+			}
+			need := int64(0)
+			if sl.Low != nil {
+				l, ok := eng.ConstInt(sl.Low)
+				if !ok {
+					continue
+				}
+				need += l
+			}
+			var lenV ssa.Value
+			if sl.High != nil {
+				base, k := eng.SplitConstOffset(sl.High)
+				if cl, ok := eng.Unwrap(base).(*ssa.Call); ok && len(p.CalleeKeys(cl)) == 1 && p.CalleeKeys(cl)[0] == "builtin:len" {
+					need += -k
+					lenV = base
+				} else {
+					continue
+				}
+			}
+			if need <= 0 {
+				continue
+			}
+			n++
+			fs := facts.At(sl)
+			has := func(fn string) bool {
+				return len(facts.Find(fs, "true", func(d string, _ ssa.Value) bool { return strings.Contains(d, fn+"(") }, nil)) > 0
+			}
+			numeric := false
+			if lenV != nil {
+				numeric = facts.Prove("le", ssa.NewConst(constant.MakeInt64(need), lenV.Type()), lenV, sl)
+			}
+			for _, ft := range fs {
+				// a length test written on another len(...) of the same string / slice
+				if (ft.Op == "le" || ft.Op == "lt") && ft.Y != nil && lenV != nil && p.Desc(ft.Y) == p.Desc(lenV) {
+					if k, ok := eng.ConstInt(ft.X); ok && (ft.Op == "le" && k >= need || ft.Op == "lt" && k >= need-1) {
+						numeric = true
+					}
+				}
+			}
+			okS := numeric
+			switch need {
+			case 1:
+				okS = okS || has("HasPrefix") || has("HasSuffix")
+			case 2:
+				notStar := len(facts.Find(fs, "ne", func(_ string, v ssa.Value) bool { return v == like }, eng.DescIs(`"*"`))) > 0
+				okS = okS || has("HasPrefix") && has("HasSuffix") && notStar
+			}
+			c.Check(okS, fmt.Sprintf("slice-in-range[%d]", n), sl, f,
+				fmt.Sprintf("the pattern is sliced [%d : len-%d] only when its length is known to be at least %d (like '*' is a pattern, not a crash)", need-(need-int64OrZero(sl.Low)), need-int64OrZero(sl.Low), need),
+				"facts: "+strings.Join(facts.Render(fs), " ; "))
+		}
+	}
+	c.Check(n >= 3, "pattern-slices-found", nil, f, "FindValuesByLike strips the wildcards by slicing the pattern", fmt.Sprintf("%d slices", n))
+}
+
+func int64OrZero(v ssa.Value) int64 {
+	if v == nil {
+		return 0
+	}
+	k, _ := eng.ConstInt(v)
+	return k
 }
